@@ -20,6 +20,16 @@
 (* Named alternatives: Impl = "trunc" drops the remainder (per-sample        *)
 (* truncation, the drift the property is about), Impl = "nodropdur" skips    *)
 (* sequence numbers but not the duration.  TLC exhibits both.                *)
+(*                                                                           *)
+(* Track options and bindings.  The track may be created with                *)
+(* WithRTPSequenceNumber / WithRTPTimestamp (seqOpt / tsOpt) or without (the *)
+(* packetizer then starts at random values).  Bind creates the packetizer    *)
+(* and the sequencer on the FIRST call only; a later Bind (same track on a   *)
+(* second sender, or a re-bind) and Unbind change who receives the packets,  *)
+(* never the stream.  Impl = "rebindseq" is the named wrong alternative in   *)
+(* which every Bind with WithRTPSequenceNumber set installs a fresh          *)
+(* sequencer in the track while the packetizer keeps the first one: the      *)
+(* skip of PrevDroppedPackets then happens on a sequencer nobody reads.      *)
 EXTENDS SampleTrackOps, Randomization
 
 CONSTANTS Rates,     \* clock rates explored
@@ -27,16 +37,20 @@ CONSTANTS Rates,     \* clock rates explored
           DurKinds,  \* subset of {"third", "ms1", "ms20", "ms33", "s30", "ntsc"}
           Drops,     \* values of PrevDroppedPackets
           Sizes,     \* number of packets a sample is meant to span (0 = empty data)
-          MaxLen,    \* samples per behaviour
-          Impl       \* "carry" (pion) | "trunc" | "nodropdur"
+          MaxLen,    \* events (samples, binds, unbinds) per behaviour
+          SeqOpts,   \* subset of BOOLEAN: WithRTPSequenceNumber given
+          TsOpts,    \* subset of BOOLEAN: WithRTPTimestamp given
+          Rebinds,   \* TRUE: a second sender may be bound / a sender unbound between samples
+          Impl       \* "carry" (pion) | "trunc" | "nodropdur" | "rebindseq"
 
-VARIABLES rate, start,            \* parameters of the behaviour
+VARIABLES rate, start, seqOpt, tsOpt, \* parameters of the behaviour
+          bound, detached,        \* senders bound (1 is bound by the driver at the start); WriteSample's sequencer is no longer the packetizer's
           ts, rem, seq,           \* implementation state: packetizer.Timestamp - initial, remainder (units), sequencer
           acc, lastSeq, prevLast, pend, \* normative ghosts: exact elapsed time, last sequence number written (now / before the last call), skips not yet visible
           pk, before, skipped,    \* what the last WriteSample emitted / the exact time before it / its total skip
           n, hist, done
 
-vars == <<rate, start, ts, rem, seq, acc, lastSeq, prevLast, pend, pk, before, skipped, n, hist, done>>
+vars == <<rate, start, seqOpt, tsOpt, bound, detached, ts, rem, seq, acc, lastSeq, prevLast, pend, pk, before, skipped, n, hist, done>>
 
 \* the durations of the design, in integer nanoseconds (time.Duration)
 DurNs(kind, R) ==
@@ -47,7 +61,8 @@ DurNs(kind, R) ==
     [] kind = "s30"   -> 33333333                                \* 1/30 s
     [] kind = "ntsc"  -> 33366667                                \* 1001/30000 s
 
-Init == /\ rate \in Rates /\ start \in StartSet
+Init == /\ rate \in Rates /\ start \in StartSet /\ seqOpt \in SeqOpts /\ tsOpt \in TsOpts
+        /\ bound = {1} /\ detached = FALSE
         /\ ts = 0 /\ rem = 0 /\ seq = 0          \* seq: offset of the last number the sequencer handed out
         /\ acc = ZeroTime /\ lastSeq = 0 /\ prevLast = 0 /\ pend = 0
         /\ pk = <<>> /\ before = ZeroTime /\ skipped = 0
@@ -57,7 +72,7 @@ WriteSample(kind, np, N) ==
   LET d     == DurNs(kind, rate)
       Den   == RateDen(rate)
       tickU == d * RateNum(rate)                      \* tickF, in units
-      seq1  == (seq + N) % SeqMod
+      seq1  == IF detached THEN seq ELSE (seq + N) % SeqMod    \* the skip is made on s.sequencer
       dropT == tickU * N + rem
       ts1   == IF N > 0 /\ Impl # "nodropdur" THEN ts + (dropT \div Den) ELSE ts
       rem1  == IF N > 0 /\ Impl # "nodropdur" THEN dropT % Den ELSE rem
@@ -72,31 +87,56 @@ WriteSample(kind, np, N) ==
      /\ pend' = IF np = 0 THEN pend + N ELSE 0
      /\ lastSeq' = IF np = 0 THEN lastSeq ELSE (seq1 + np) % SeqMod
      /\ prevLast' = lastSeq
-     /\ hist' = Append(hist, [d |-> d, np |-> np, drop |-> N])
+     /\ hist' = Append(hist, [k |-> "sample", d |-> d, np |-> np, drop |-> N, b |-> 0,
+                               eseq |-> (seq1 + 1) % SeqMod, ets |-> ts1])   \* what the model expects to come out
+
+Stream == <<ts, rem, seq, acc, lastSeq, prevLast, pend, pk, before, skipped>>
+BindEvent(kind, b) == [k |-> kind, d |-> 0, np |-> 0, drop |-> 0, b |-> b, eseq |-> 0, ets |-> 0]
+
+\* Bind of a further sender: the packetizer exists already, only the list of receivers changes
+BindMore(b) ==
+  /\ Rebinds /\ b \notin bound
+  /\ bound' = bound \cup {b}
+  /\ detached' = (detached \/ (Impl = "rebindseq" /\ seqOpt))
+  /\ pk' = <<>> /\ hist' = Append(hist, BindEvent("bind", b))
+  /\ UNCHANGED <<ts, rem, seq, acc, lastSeq, prevLast, pend, before, skipped>>
+
+\* one sender always stays bound (samples written to a track nobody is bound to reach no observer)
+UnbindOne(b) ==
+  /\ Rebinds /\ b \in bound /\ bound # {b}
+  /\ bound' = bound \ {b}
+  /\ pk' = <<>> /\ hist' = Append(hist, BindEvent("unbind", b))
+  /\ UNCHANGED <<detached, ts, rem, seq, acc, lastSeq, prevLast, pend, before, skipped>>
 
 Next ==
   \/ /\ n < MaxLen /\ ~done /\ n' = n + 1
-     /\ \E kind \in DurKinds, np \in Sizes, N \in Drops : WriteSample(kind, np, N)
-     /\ UNCHANGED <<rate, start, done>>
+     /\ \/ /\ \E kind \in DurKinds, np \in Sizes, N \in Drops : WriteSample(kind, np, N)
+           /\ UNCHANGED <<bound, detached>>
+        \/ \E b \in 1..2 : BindMore(b) \/ UnbindOne(b)
+     /\ UNCHANGED <<rate, start, seqOpt, tsOpt, done>>
   \/ /\ n = MaxLen /\ ~done /\ done' = TRUE      \* single closing step: the behaviour is complete
-     /\ UNCHANGED <<rate, start, ts, rem, seq, acc, lastSeq, prevLast, pend, pk, before, skipped, n, hist>>
+     /\ UNCHANGED <<rate, start, seqOpt, tsOpt, bound, detached, ts, rem, seq, acc, lastSeq, prevLast, pend, pk, before, skipped, n, hist>>
 
 Spec == Init /\ [][Next]_vars
 
 \* Sampling variant for long behaviours (run with -simulate): instead of branching over the whole
 \* alphabet at every step (54 successors, all of them evaluated), one action is drawn per step with
 \* TLC's seeded generator; drops and empty samples are made rarer than in a uniform draw.
+\* About one event in 25 binds the other sender or unbinds one of two.
 SimNext ==
   \/ /\ n < MaxLen /\ ~done /\ n' = n + 1
-     /\ \E kind \in RandomSubset(1, DurKinds), w \in RandomSubset(1, 1..10), z \in RandomSubset(1, 1..10) :
+     /\ \E kind \in RandomSubset(1, DurKinds), w \in RandomSubset(1, 1..10), z \in RandomSubset(1, 1..10),
+           e \in RandomSubset(1, 1..25), b \in RandomSubset(1, 1..2) :
           LET N  == IF w <= 7 THEN 0 ELSE IF w <= 9 THEN 1 ELSE 3
               np == IF z <= 1 THEN 0 ELSE IF z <= 6 THEN 1 ELSE 3
-          IN N \in Drops /\ np \in Sizes /\ WriteSample(kind, np, N)
-     /\ UNCHANGED <<rate, start, done>>
+          IN IF Rebinds /\ e = 1 /\ (b \notin bound \/ bound # {b})
+             THEN IF b \in bound THEN UnbindOne(b) ELSE BindMore(b)
+             ELSE N \in Drops /\ np \in Sizes /\ WriteSample(kind, np, N) /\ UNCHANGED <<bound, detached>>
+     /\ UNCHANGED <<rate, start, seqOpt, tsOpt, done>>
   \/ /\ n = MaxLen /\ ~done /\ done' = TRUE
-     /\ UNCHANGED <<rate, start, ts, rem, seq, acc, lastSeq, prevLast, pend, pk, before, skipped, n, hist>>
+     /\ UNCHANGED <<rate, start, seqOpt, tsOpt, bound, detached, ts, rem, seq, acc, lastSeq, prevLast, pend, pk, before, skipped, n, hist>>
 \* exhaustive runs need not distinguish states by the recorded history
-mcview == <<rate, ts, rem, seq, acc, lastSeq, prevLast, pend, pk, before, skipped, n, done>>
+mcview == <<rate, seqOpt, bound, detached, ts, rem, seq, acc, lastSeq, prevLast, pend, pk, before, skipped, n, done>>
 
 \* ---- what TLC checks on the model -------------------------------------------------------------
 TypeOK == /\ rem \in 0..(RateDen(rate) - 1) /\ acc.f \in 0..(RateDen(rate) - 1) /\ seq \in 0..(SeqMod - 1)
@@ -109,5 +149,6 @@ ModelSeqPlusOne   == Emitted => SeqRunPlusOne(pk)
 ModelDropSkips    == Emitted => SeqAfter(pk, prevLast, skipped)
 
 \* ---- vectors for the replay --------------------------------------------------------------------
-EmitVec == done => PrintT(<<"VERIF_VEC", ToJson([rate |-> rate, start |-> start, samples |-> hist])>>)
+EmitVec == done => PrintT(<<"VERIF_VEC", ToJson([rate |-> rate, start |-> start, seqopt |-> seqOpt, tsopt |-> tsOpt,
+                                                  events |-> hist])>>)
 =============================================================================
